@@ -400,4 +400,19 @@ theorem phi0OpenMP_eq (hv : t.Valid) {w : ITy} {x y z k : ℕ} (hy1 : 1 ≤ y) (
   rw [Spec.ord_eq_root_sub_sum (le_trans hy1 hyz), Finset.sum_neg_distrib]
   congr 1
 
+/-! names used in the work-package brief -/
+theorem s1Thread_eq (hv : t.Valid) {w : ITy} {x y c : ℕ} (hy : y ≤ t.bound) (hc : c ≤ 8) (hw : y * y ≤ w.maxVal)
+    (mu : ℤ) (b sq : ℕ) (hsq1 : 1 ≤ sq) (hsq : sq ≤ y) :
+    s1Thread t w (π y + 1) x y c mu b sq
+      = .ok (0 - mu * (Spec.ordG x y c (π y) b sq - (Spec.phi (x / sq) c : ℤ))) :=
+  leafThread_eq hv hy hc hw _ b rfl mu sq 0 hsq1 hsq
+
+theorem s1_eq (hv : t.Valid) {w : ITy} {x y c : ℕ} (hy1 : 1 ≤ y) (hy : y ≤ t.bound) (hc : c ≤ 8)
+    (hw : y * y ≤ w.maxVal) {sched : List (List ℕ)} (hs : IsSchedule (c + 1) (π y) sched) :
+    s1OpenMP t w x y c sched = .ok (Spec.S1 x y c) := s1OpenMP_eq hv hy1 hy hc hw hs
+
+theorem phi0_eq (hv : t.Valid) {w : ITy} {x y z k : ℕ} (hy1 : 1 ≤ y) (hy : y ≤ t.bound) (hk : k ≤ 8)
+    (hyz : y ≤ z) (hw : z * y ≤ w.maxVal) {sched : List (List ℕ)} (hs : IsSchedule (k + 1) (π y) sched) :
+    phi0OpenMP t w x y z k sched = .ok (Spec.Phi0 x y z k) := phi0OpenMP_eq hv hy1 hy hk hyz hw hs
+
 end Pc
